@@ -259,7 +259,7 @@ func c19AccRun(out *c19Out, raw []byte) {
 	out.Class("parse/" + c.Parse)
 	switch {
 	case lazy && touchers >= 2:
-		out.Class("id/cold/2+goroutines-ask-for-it (known race class)")
+		out.Class("id/cold/2+goroutines-ask-for-it")
 	case lazy && touchers == 1:
 		out.Class("id/cold/1-goroutine-asks-for-it")
 	case lazy:
